@@ -508,7 +508,7 @@ def run(ctx):
     ctx.fanout("c05-windowmanager-%s" % ctx.tier, jobs, "job_wm",
                domain="WindowManager closure for max 0..%d, bounded for 8 large maxima" % cmax)
     for role in ("server", "client"):
-        ctx.explore(("c05", role, ctx.tier), time_budget=None if quick else 500)
+        ctx.explore(("c05", role, ctx.tier), time_budget=None if quick else 300)
     ctx.explore(("c05", "client", ctx.tier, "promised"), time_budget=None if quick else 300)
     for role in ("server", "client"):
         ctx.explore(("c05", role, ctx.tier, "zero"), time_budget=None if quick else 200)
